@@ -222,10 +222,144 @@ func extraFacts(repo string, fc *Facts) error {
 		files = append(files, fs)
 	}
 
-	var srcSites, sinkSites, poolSites, globals, sinkProp, srcProp []string
-	sinkCallees := map[string]bool{"DoWrite": true, "WritePageHeader": true, "Footer": true}
-	srcCallees := map[string]bool{"ReadFooter": true, "ReadMetaData": true, "readRowGroup": true, "DoRead": true, "PageHeader": true,
-		"pageData": true, "readLevels": true, "getMetaDataSize": true, "PageHeadersAtOffset": true}
+	var srcSites, sinkSites, poolSites, globals, sinkProp, srcProp, srcExtern, sinkExtern []string
+	// which expressions denote the source / the sink: flow analysis (taint.go), not identifier names
+	srcFlow := newFlow(files, func(fs *fileSrc, fn *ast.FuncDecl, typ string) bool { return typ == "io.ReadSeeker" })
+	sinkFlow := newFlow(files, func(fs *fileSrc, fn *ast.FuncDecl, typ string) bool {
+		return typ == "io.Writer" && fn.Name.Name == "NewParquetWriter"
+	})
+	// functions (by name) that return an error
+	returnsErr := map[string]bool{}
+	for _, fs := range files {
+		for _, fn := range funcsOf(fs) {
+			if fn.Type.Results != nil {
+				for _, r := range fn.Type.Results.List {
+					if exprStr(fs, r.Type) == "error" {
+						returnsErr[fn.Name.Name] = true
+					}
+				}
+			}
+		}
+	}
+	// a function touches the source (sink) when it contains a read/seek (write) site on it or calls a
+	// function that does; calls to such functions are the propagation sites
+	srcTouch, sinkTouch := map[string]bool{}, map[string]bool{}
+	declared := map[string]bool{}
+	for _, fs := range files {
+		for _, fn := range funcsOf(fs) {
+			if fn.Recv != nil && len(fn.Recv.List) == 1 {
+				declared[typeName(fs, fn.Recv.List[0].Type)+"."+fn.Name.Name] = true
+			}
+		}
+	}
+	fkey := func(fs *fileSrc, fn *ast.FuncDecl) string {
+		if fn.Recv != nil && len(fn.Recv.List) == 1 {
+			return typeName(fs, fn.Recv.List[0].Type) + "." + fn.Name.Name
+		}
+		return fn.Name.Name
+	}
+	touches := func(touch map[string]bool, x *ast.CallExpr, env *fenv, tainted bool) bool {
+		callee, pkg, recvE := calleeOf(x)
+		if pkg != "" || callee == "" || !returnsErr[callee] {
+			return false
+		}
+		if recvE == nil {
+			return touch[callee]
+		}
+		if id, ok := recvE.(*ast.Ident); ok {
+			// a method declared on the receiver's own type; promoted methods of embedded types
+			// fall through to the by-name rule
+			if t, ok := env.typeOf[id.Name]; ok && declared[t+"."+callee] {
+				return touch[t+"."+callee]
+			}
+		}
+		if !tainted {
+			return false
+		}
+		for k := range touch {
+			if strings.HasSuffix(k, "."+callee) {
+				return true
+			}
+		}
+		return false
+	}
+	for round := 0; round < 20; round++ {
+		srcSites, sinkSites, sinkProp, srcProp, srcExtern, sinkExtern = nil, nil, nil, nil, nil, nil
+		nTouch := len(srcTouch) + len(sinkTouch)
+		for _, fs := range files {
+			for _, fn := range funcsOf(fs) {
+				fs, fn := fs, fn
+				fname := fn.Name.Name
+				if fn.Recv != nil && len(fn.Recv.List) == 1 {
+					fname = strings.TrimPrefix(exprStr(fs, fn.Recv.List[0].Type), "*") + "." + fname
+				}
+				ioMethod := isIOMethod(fs, fn)
+				// ---- source
+				srcFlow.onExternLit = func(typ string) {
+					srcExtern = append(srcExtern, fmt.Sprintf("%s:%s:%s", fs.rel, fname, typ))
+					srcTouch[fkey(fs, fn)] = true
+				}
+				srcFlow.scan(fs, fn, func(x *ast.CallExpr, env *fenv) {
+					t := func(e ast.Expr) bool { return srcFlow.isTainted(fs, env, e) }
+					callee, pkg, recvE := calleeOf(x)
+					if touches(srcTouch, x, env, anyArg(x, t)) {
+						srcProp = append(srcProp, fmt.Sprintf("%s:%s:%s:%s", fs.rel, fname, callee, errHandling(fs, fn, x)))
+						srcTouch[fkey(fs, fn)] = true
+					}
+					if recvE != nil && pkg == "" && t(recvE) && (callee == "Read" || callee == "Seek") {
+						kind := "single"
+						if callee == "Seek" {
+							kind = "seek"
+						} else if ioMethod == "Read" {
+							kind = "forward"
+						}
+						srcSites = append(srcSites, fmt.Sprintf("%s:%s:%s:%s", fs.rel, fname, kind, errHandling(fs, fn, x)))
+						srcTouch[fkey(fs, fn)] = true
+					}
+					if pkg != "" && anyArg(x, t) {
+						full := (pkg == "io" && (callee == "ReadFull" || callee == "CopyN" || callee == "ReadAll" || callee == "Copy")) ||
+							(pkg == "ioutil" && callee == "ReadAll") || (pkg == "binary" && callee == "Read")
+						if full {
+							srcSites = append(srcSites, fmt.Sprintf("%s:%s:full:%s", fs.rel, fname, errHandling(fs, fn, x)))
+						} else {
+							srcExtern = append(srcExtern, fmt.Sprintf("%s:%s:%s.%s", fs.rel, fname, pkg, callee))
+						}
+						srcTouch[fkey(fs, fn)] = true
+					}
+				})
+				// ---- sink
+				sinkFlow.onExternLit = func(typ string) {
+					sinkExtern = append(sinkExtern, fmt.Sprintf("%s:%s:%s", fs.rel, fname, typ))
+					sinkTouch[fkey(fs, fn)] = true
+				}
+				sinkFlow.scan(fs, fn, func(x *ast.CallExpr, env *fenv) {
+					t := func(e ast.Expr) bool { return sinkFlow.isTainted(fs, env, e) }
+					callee, pkg, recvE := calleeOf(x)
+					if touches(sinkTouch, x, env, anyArg(x, t)) {
+						sinkProp = append(sinkProp, fmt.Sprintf("%s:%s:%s:%s", fs.rel, fname, callee, errHandling(fs, fn, x)))
+						sinkTouch[fkey(fs, fn)] = true
+					}
+					if recvE != nil && pkg == "" && t(recvE) && callee == "Write" {
+						sinkSites = append(sinkSites, fmt.Sprintf("%s:%s:%s", fs.rel, fname, errHandling(fs, fn, x)))
+						sinkTouch[fkey(fs, fn)] = true
+					}
+					if pkg != "" && anyArg(x, t) {
+						wr := (pkg == "binary" && callee == "Write") || (pkg == "io" && (callee == "Copy" || callee == "CopyN" || callee == "WriteString")) ||
+							(pkg == "fmt" && strings.HasPrefix(callee, "Fprint"))
+						if wr {
+							sinkSites = append(sinkSites, fmt.Sprintf("%s:%s:%s", fs.rel, fname, errHandling(fs, fn, x)))
+						} else {
+							sinkExtern = append(sinkExtern, fmt.Sprintf("%s:%s:%s.%s", fs.rel, fname, pkg, callee))
+						}
+						sinkTouch[fkey(fs, fn)] = true
+					}
+				})
+			}
+		}
+		if len(srcTouch)+len(sinkTouch) == nTouch {
+			break
+		}
+	}
 	for _, fs := range files {
 		for _, fn := range funcsOf(fs) {
 			fname := fn.Name.Name
@@ -240,70 +374,8 @@ func extraFacts(repo string, fc *Facts) error {
 						puts++
 					}
 				case *ast.CallExpr:
-					// ---- propagation of errors from callees that touch the sink / the source
-					callee := ""
-					var recvE ast.Expr
-					switch f := x.Fun.(type) {
-					case *ast.Ident:
-						callee = f.Name
-					case *ast.SelectorExpr:
-						callee = f.Sel.Name
-						recvE = f.X
-					}
-					if sinkCallees[callee] {
-						sinkProp = append(sinkProp, fmt.Sprintf("%s:%s:%s:%s", fs.rel, fname, callee, errHandling(fs, fn, x)))
-					}
-					if callee == "Write" && recvE != nil {
-						if _, isIdx := recvE.(*ast.IndexExpr); isIdx || isIdent(recvE, "f") {
-							if len(x.Args) == 2 {
-								sinkProp = append(sinkProp, fmt.Sprintf("%s:%s:Field.Write:%s", fs.rel, fname, errHandling(fs, fn, x)))
-							}
-						}
-					}
-					if srcCallees[callee] {
-						srcProp = append(srcProp, fmt.Sprintf("%s:%s:%s:%s", fs.rel, fname, callee, errHandling(fs, fn, x)))
-					}
-					if callee == "Read" && recvE != nil && (isIdent(recvE, "f", "m", "pg") ) && len(x.Args) == 2 {
-						srcProp = append(srcProp, fmt.Sprintf("%s:%s:%s.Read:%s", fs.rel, fname, exprStr(fs, recvE), errHandling(fs, fn, x)))
-					}
-					sel, ok := x.Fun.(*ast.SelectorExpr)
-					if !ok {
-						return true
-					}
-					recv, m := sel.X, sel.Sel.Name
-					// ---- pool
-					if isIdent(recv, "buffpool") && m == "Get" {
+					if sel, ok := x.Fun.(*ast.SelectorExpr); ok && isIdent(sel.X, "buffpool") && sel.Sel.Name == "Get" {
 						gets++
-					}
-					// ---- source
-					if isIdent(recv, "r", "rr0", "p.r") && (m == "Read" || m == "Seek") {
-						kind := "single"
-						if m == "Seek" {
-							kind = "seek"
-						}
-						srcSites = append(srcSites, fmt.Sprintf("%s:%s:%s:%s", fs.rel, fname, kind, errHandling(fs, fn, x)))
-					}
-					if isIdent(recv, "r.r") && m == "Read" {
-						srcSites = append(srcSites, fmt.Sprintf("%s:%s:forward:%s", fs.rel, fname, errHandling(fs, fn, x)))
-					}
-					if isIdent(recv, "io") && (m == "ReadFull" || m == "CopyN" || m == "ReadAll") {
-						arg := x.Args[0]
-						if m == "CopyN" {
-							arg = x.Args[1]
-						}
-						if isIdent(arg, "r", "rc", "p.r") {
-							srcSites = append(srcSites, fmt.Sprintf("%s:%s:full:%s", fs.rel, fname, errHandling(fs, fn, x)))
-						}
-					}
-					if isIdent(recv, "binary") && m == "Read" && isIdent(x.Args[0], "r", "rc", "p.r") {
-						srcSites = append(srcSites, fmt.Sprintf("%s:%s:full:%s", fs.rel, fname, errHandling(fs, fn, x)))
-					}
-					// ---- sink
-					if isIdent(recv, "w", "p.w") && m == "Write" {
-						sinkSites = append(sinkSites, fmt.Sprintf("%s:%s:%s", fs.rel, fname, errHandling(fs, fn, x)))
-					}
-					if isIdent(recv, "binary") && m == "Write" && isIdent(x.Args[0], "w", "p.w") {
-						sinkSites = append(sinkSites, fmt.Sprintf("%s:%s:%s", fs.rel, fname, errHandling(fs, fn, x)))
 					}
 				}
 				return true
@@ -356,6 +428,10 @@ func extraFacts(repo string, fc *Facts) error {
 	sort.Strings(srcProp)
 	fc.Lists["sinkPropagation"] = sinkProp
 	fc.Lists["sourcePropagation"] = srcProp
+	sort.Strings(srcExtern)
+	sort.Strings(sinkExtern)
+	fc.Lists["sourceExtern"] = srcExtern
+	fc.Lists["sinkExtern"] = sinkExtern
 
 	// structured form for the Lean lemmas
 	var raw strings.Builder
@@ -381,6 +457,19 @@ func extraFacts(repo string, fc *Facts) error {
 	emit("sinkSiteList", sinkSites, -1, 2)
 	emit("sinkPropList", sinkProp, -1, 3)
 	emit("sourcePropList", srcProp, -1, 3)
+	emitStrs := func(name string, items []string) {
+		fmt.Fprintf(&raw, "def %s : List String := [", name)
+		for i, it := range items {
+			if i > 0 {
+				raw.WriteString(", ")
+			}
+			p := strings.Split(it, ":")
+			fmt.Fprintf(&raw, "%q", p[len(p)-1])
+		}
+		raw.WriteString("]\n\n")
+	}
+	emitStrs("sourceExternList", srcExtern)
+	emitStrs("sinkExternList", sinkExtern)
 	raw.WriteString("structure PoolSite where\n  file : String\n  fn : String\n  gets : Nat\n  deferPuts : Nat\n  contained : Bool\nderiving Repr\n\n")
 	raw.WriteString("def poolSiteList : List PoolSite := [")
 	for i, it := range poolSites {
@@ -445,4 +534,39 @@ func loadTemplate2(repo, rel, varName string) (*fileSrc, error) {
 		return nil, fmt.Errorf("%s#%s: template body does not parse after neutralising actions: %v", rel, varName, err)
 	}
 	return &fileSrc{rel + "#" + varName, fset, pf}, nil
+}
+
+// calleeOf: (name, package-qualifier if the call is pkg.Func of an external package, receiver expression)
+func calleeOf(x *ast.CallExpr) (string, string, ast.Expr) {
+	switch f := x.Fun.(type) {
+	case *ast.Ident:
+		return f.Name, "", nil
+	case *ast.SelectorExpr:
+		if id, ok := f.X.(*ast.Ident); ok && externalPkg[id.Name] {
+			return f.Sel.Name, id.Name, nil
+		}
+		return f.Sel.Name, "", f.X
+	}
+	return "", "", nil
+}
+
+func anyArg(x *ast.CallExpr, t func(ast.Expr) bool) bool {
+	for _, a := range x.Args {
+		if t(a) {
+			return true
+		}
+	}
+	return false
+}
+
+// isIOMethod: "Read"/"Write" when fn is a method with the io.Reader/io.Writer signature
+func isIOMethod(fs *fileSrc, fn *ast.FuncDecl) string {
+	if fn.Recv == nil || (fn.Name.Name != "Read" && fn.Name.Name != "Write") {
+		return ""
+	}
+	ps := fn.Type.Params.List
+	if len(ps) == 1 && exprStr(fs, ps[0].Type) == "[]byte" {
+		return fn.Name.Name
+	}
+	return ""
 }
